@@ -97,6 +97,7 @@ def check_case(case, ctx):
     else:
         front, cons_groups = raw_groups(pf.partition), raw_groups(pc.partition)
         ctx.count("partitions")
+        ctx.unit()
         if len(cons_groups) >= 3:
             ctx.count("parcons_ge3_groups")
         ok = True
@@ -156,6 +157,7 @@ def check_case(case, ctx):
             return part.consistent_with(consensus)
         st3, got = call(run)
         ctx.count("consistent_pairs")
+        ctx.unit()
         ctx.count(f"pair:{case['pair_kind']}:{truth}")
         if st3 == "exc":
             ctx.violation(f"C07/consistent-with-raises-{type(got).__name__}", "consistent_with raised " + exc_desc(got),
